@@ -9,7 +9,8 @@ use vh::e2::{main_e2, Args, Ctx, Family, Spec};
 use vh::enc::{self, Abs, Enc};
 use vh::machines::stable as ms;
 use vh::refmodel::*;
-use vh::{v_adjacency, v_compact, v_core, v_counts, v_directed, v_edge_indexable, v_neighbors_directed};
+use petgraph::visit::IntoEdgeReferences;
+use vh::{v_adjacency, v_compact, v_core, v_counts, v_datamap, v_directed, v_edge_indexable};
 
 fn rev(a: &Abs<u8>) -> Abs<u8> {
     Abs::new(a.n, a.directed, a.edges.iter().map(|&(x, y, w)| (y, x, w)).collect())
@@ -50,7 +51,30 @@ macro_rules! adaptors_on {
         // &G
         {
             let e = Enc { name: "&G", g: &base.g, ids: base.ids.clone(), sparse: base.sparse };
-            full_caps!($ctx, abs, e);
+            full_caps!($ctx, abs, &e);
+            v_datamap!($ctx, abs, &e, Vec::new());
+        }
+        // &mut G (GraphBase, Data, DataMap, DataMapMut are the traits it forwards)
+        {
+            use petgraph::data::{DataMap, DataMapMut};
+            let mut c = base.g.clone();
+            let mut ok = true;
+            for a in 0..n {
+                let want = DataMap::node_weight(&base.g, base.id(a)).cloned();
+                let r = &mut c;
+                ok &= DataMap::node_weight(&r, base.id(a)).cloned() == want;
+                let mut r = &mut c;
+                ok &= DataMapMut::node_weight_mut(&mut r, base.id(a)).map(|w| *w) == want;
+            }
+            for er in base.g.edge_references() {
+                let r = &mut c;
+                ok &= DataMap::edge_weight(&r, er.id()) == Some(er.weight());
+                let mut r = &mut c;
+                ok &= DataMapMut::edge_weight_mut(&mut r, er.id()).map(|w| *w) == Some(*er.weight());
+            }
+            if !ok {
+                $ctx.viol("&mut G", "delegated DataMap / DataMapMut differ from the wrapped graph", format!("{} of {:?}", base.name, abs));
+            }
         }
         // Frozen<&G> (the Into* traits) and Frozen<G> (the by-reference traits)
         {
@@ -80,6 +104,7 @@ macro_rules! adaptors_on {
         {
             let ra = rev(abs);
             let e = Enc { name: "Reversed<&G>", g: Reversed(&base.g), ids: base.ids.clone(), sparse: base.sparse };
+            v_datamap!($ctx, &ra, &e, Vec::new());
             v_core!($ctx, &ra, &e, false);
             v_counts!($ctx, &ra, &e, nodes);
             v_counts!($ctx, &ra, &e, edges);
@@ -107,6 +132,8 @@ macro_rules! adaptors_on {
             let all_ids = base.ids.clone();
             let keep = move |x| all_ids.iter().position(|y| *y == x).map_or(false, |p| mask >> p & 1 == 1);
             let e = Enc { name: "NodeFiltered<&G, closure>", g: NodeFiltered::from_fn(&base.g, keep.clone()), ids: ids.clone(), sparse: true };
+            let outside: Vec<_> = (0..n).filter(|i| mask >> i & 1 == 0).map(|i| base.ids[i]).collect();
+            v_datamap!($ctx, &fa, &e, outside);
             v_core!($ctx, &fa, &e, false);
             v_directed!($ctx, &fa, &e);
             v_edge_indexable!($ctx, &fa, &e);
@@ -220,6 +247,23 @@ fn run_case(ctx: &mut Ctx, n: usize, directed: bool, edges: Vec<E>, thorough: bo
     }
     if directed {
         go!(Directed, true);
+        // Acyclic<G> forwards the visit traits of its inner graph (acyclic inputs only)
+        {
+            use petgraph::acyclic::Acyclic;
+            let b = enc::graph::<Directed, u32, u8>(&abs);
+            if let Ok(a) = Acyclic::try_from_graph(b.g.clone()) {
+                let e = Enc { name: "Acyclic<Graph>", g: a, ids: b.ids.clone(), sparse: false };
+                full_caps!(ctx, &abs, &e);
+                v_compact!(ctx, &abs, &e);
+                let h = enc::stable_holes::<Directed, u32, u8>(&abs);
+                if let Ok(a) = Acyclic::try_from_graph(h.g.clone()) {
+                    let e = Enc { name: "Acyclic<StableGraph(node+edge vacancies)>", g: a, ids: h.ids.clone(), sparse: true };
+                    full_caps!(ctx, &abs, &e);
+                } else {
+                    ctx.viol("Acyclic::try_from_graph", "rejects an acyclic graph in one encoding and accepts it in another", format!("{:?}", abs));
+                }
+            }
+        }
         if let Some(b) = enc::list(&abs) {
             v_core!(ctx, &abs, &b, false);
             v_counts!(ctx, &abs, &b, nodes);
@@ -276,7 +320,7 @@ fn families(a: &Args) -> Vec<Family> {
             name: if directed { "lists3-directed" } else { "lists3-undirected" },
             thorough_only: false,
             count: f.count(),
-            bounds: format!("{} in Graph (two histories), StableGraph (compact / vacancies), GraphMap (two key orders / after node removals), MatrixGraph (compact / removed ids), Csr (fresh / after clear_edges), adj::List, and through &G, Frozen, Reversed, UndirectedAdaptor, NodeFiltered (every node subset; closure / FixedBitSet / HashSet), EdgeFiltered (every edge subset) and their depth-2 stackings", f.bounds()),
+            bounds: format!("{} in Graph (two histories), StableGraph (compact / vacancies), GraphMap (two key orders / after node removals), MatrixGraph (compact / removed ids), Csr (fresh / after clear_edges), adj::List, Acyclic<Graph> / Acyclic<StableGraph> (acyclic inputs), and through &G, Frozen, Reversed, UndirectedAdaptor, NodeFiltered (every node subset; closure / FixedBitSet / HashSet), EdgeFiltered (every edge subset) and their depth-2 stackings", f.bounds()),
             run: Box::new(move |idx, ctx| { let (n, e) = f.get(idx); run_case(ctx, n, directed, e, t) }),
             describe: Box::new(move |idx| { let (n, e) = f2.get(idx); json!({"n": n, "directed": directed, "edges": e}) }),
         });
